@@ -526,3 +526,84 @@ Definition restore (c : cfg) (o : opts) (droot : apath) (roots : list node) (s :
     end
   | (oc, s1, pl) => mkR oc s1 [] (to_packs pl)
   end.
+
+(* ---------------------------------------------------------------- PackInfo::coalesce (restore_contents)
+   The (pack, location) entries are turned into PackInfo's and adjacent ones of a pack are merged
+   into one partial read (itertools `coalesce`).  `pi_from` = from_file: (file index, start, length
+   of the entry's own blob) when one of its locations matches an existing file.  The guard of the
+   merge is a fact regenerated from the source (cguard). *)
+Inductive cguard := CgSelf | CgOther.
+Record pinfo := mkPI {
+  pi_pack : N; pi_from : option (nat * N * N); pi_off : N; pi_len : N;
+  pi_blobs : list (N * N * list N * list floc) }.     (* (offset, length, bytes, non-matching locations) *)
+Definition of_entry (e : key * (list N * list floc)) : pinfo :=
+  let '(k, (data, fls)) := e in
+  mkPI (fst k)
+       (match find fl_matches fls with Some fl => Some (fl_idx fl, fl_start fl, nlen data) | None => None end)
+       (snd k) (nlen data)
+       [(snd k, nlen data, data, filter (fun fl => negb (fl_matches fl)) fls)].
+Definition is_none {A} (x : option A) : bool := match x with None => true | Some _ => false end.
+(* BlobLocations::can_coalesce *)
+Definition can_coalesce (maxhole limit : N) (a b : pinfo) : bool :=
+  (pi_off b <=? pi_off a + pi_len a + maxhole) && (pi_off a + pi_len a <=? pi_off b) &&
+  (pi_off b + pi_len b - pi_off a <=? limit).
+Definition pcoalesce (g : cguard) (cc : pinfo -> pinfo -> bool) (a b : pinfo) : option pinfo :=
+  if (pi_pack a =? pi_pack b) && (match g with CgSelf => is_none (pi_from a) | CgOther => is_none (pi_from b) end) && cc a b
+  then Some (mkPI (pi_pack a) (pi_from a) (pi_off a) (pi_off b + pi_len b - pi_off a) (pi_blobs a ++ pi_blobs b))
+  else None.
+Fixpoint coal (g : cguard) (cc : pinfo -> pinfo -> bool) (cur : pinfo) (rest : list pinfo) : list pinfo :=
+  match rest with
+  | [] => [cur]
+  | n :: t => match pcoalesce g cc cur n with Some m => coal g cc m t | None => cur :: coal g cc n t end
+  end.
+Definition coalesce_all (g : cguard) (cc : pinfo -> pinfo -> bool) (l : list pinfo) : list pinfo :=
+  match l with [] => [] | a :: t => coal g cc a t end.
+
+(* one PackInfo: read once (from the existing file, or the pack range); every blob of it is written
+   to its locations — `if from_file.is_some() { read_data.clone() } else { <the blob's slice> }` *)
+Definition do_pinfo (c : cfg) (o : opts) (droot : apath) (names : list pbuf) (pre : list bool)
+           (st : option (fs * list N * list N)) (p : pinfo) : option (fs * list N * list N) :=
+  match st with
+  | None => None
+  | Some (s, sizes, reads) =>
+    let src :=
+      match pi_from p with
+      | Some (idx, start, len) =>
+        match nth_name names idx with
+        | None => None
+        | Some nm => match read_at s (dpath droot nm) start len with Some d => Some (d, reads) | None => None end
+        end
+      | None => Some ([], reads ++ [pi_pack p])
+      end in
+    match src with
+    | None => None
+    | Some (rd, reads') =>
+      match fold_left (fun st b => let '(_, _, data, dests) := b in
+                                   fold_left (write_dest c o droot names pre (if is_none (pi_from p) then data else rd)) dests st)
+                      (pi_blobs p) (Some (s, sizes)) with
+      | Some (s', sizes') => Some (s', sizes', reads')
+      | None => None
+      end
+    end
+  end.
+Definition restore_contents_c (c : cfg) (g : cguard) (cc : pinfo -> pinfo -> bool) (o : opts) (droot : apath) (s : fs) (pl : plan)
+  : outcome * fs * list N :=
+  match create_empty droot s (pl_names pl) (pl_lengths pl) with
+  | None => (OErr, s, [])
+  | Some s1 =>
+    match fold_left (do_pinfo c o droot (pl_names pl) (pl_pre pl)) (coalesce_all g cc (map of_entry (pl_r pl)))
+                    (Some (s1, pl_lengths pl, [])) with
+    | Some (s2, _, reads) => (OOk, s2, reads)
+    | None => (OPanic, s1, [])
+    end
+  end.
+Definition restore_c (c : cfg) (g : cguard) (cc : pinfo -> pinfo -> bool) (o : opts) (droot : apath) (roots : list node) (s : fs) : result :=
+  let nodes := stream c roots in
+  match collect_and_prepare c o droot s nodes with
+  | (OOk, s1, pl) =>
+    match restore_contents_c c g cc o droot s1 pl with
+    | (OOk, s2, reads) => mkR OOk (meta_loop droot s2 [] nodes) reads (to_packs pl)
+    | (oc, s2, reads) => mkR oc s2 reads (to_packs pl)
+    end
+  | (oc, s1, pl) => mkR oc s1 [] (to_packs pl)
+  end.
